@@ -56,6 +56,11 @@ def near_misses(rnd, n):
     out.append("")
     out.append("class " * 5000)
     out.append(GOOD * 400)   # about half a megabyte
+    # documents larger than a megabyte: an error behind the first MiB, and a valid document with a very long comment
+    filler = "// " + "x" * 60 + "\n"
+    out.append(filler * 18000 + "class A implements Namespace { related: { a: Missing[] } }\n")
+    out.append("class A implements Namespace {} /* " + "y" * 1200000 + " */ class B implements Namespace {}\n")
+    out.append(GOOD + filler * 40000 + "class Z implements Namespace { permits = { p: (ctx) => this.related.nothing.includes(ctx.subject) } }\n")
     return out
 
 
@@ -64,12 +69,14 @@ def c12(tier):
     binary = build_harness()
     rnd = random.Random(seed())
     maxlen, nsample, longlen = (3, 3000, 9) if tier == "quick" else (3, 60000, 14)
-    cfg = write_cfg(["MaxLen = %d" % maxlen, "NSample = %d" % nsample, "LongLen = %d" % longlen], invariants=["LexerTotal"])
-    r = tlc("OplLex", "l.cfg", files={"l.cfg": cfg}, extra=["-seed", str(seed())])
-    ck.add_tlc(r)
-    if r.violation:
-        ck.violation("OplLex.tla: " + r.violation, {"tlc": r.raw_tail[-3000:]})
-    lex = r.lines
+    lex = []
+    for alpha, ml, ns_, ll in (("full", maxlen, nsample, longlen), ("comment", 7 if tier == "quick" else 8, 500, 14), ("string", 5 if tier == "quick" else 6, 500, 12)):
+        cfg = write_cfg(['Alpha = "%s"' % alpha, "MaxLen = %d" % ml, "NSample = %d" % ns_, "LongLen = %d" % ll], invariants=["LexerTotal"])
+        r = tlc("OplLex", "l.cfg", files={"l.cfg": cfg}, extra=["-seed", str(seed())])
+        ck.add_tlc(r)
+        if r.violation:
+            ck.violation("OplLex.tla (%s alphabet): %s" % (alpha, r.violation), {"tlc": r.raw_tail[-3000:]})
+        lex += r.lines
     texts = near_misses(rnd, 200 if tier == "quick" else 3000)
     raws = []
     for _ in range(300 if tier == "quick" else 5000):
